@@ -53,13 +53,13 @@ def meta(tier):
                 'inside, includer zone and local region resumed, mute state carried) and, for scope/zone-neutral blocks cut while '
                 'GLOBAL is selected, differentially against the real assembly of the unsplit program; plus a placement product '
                 '(unique / duplicated / missing file, same directory twice, file included twice, self-include, nested include '
-                'across directories); non-trivial = split whose moved block is non-empty and whose program mentions a label; '
+                'across directories); plus every include graph over three files (main includes one or two, the others nothing or one of the three; cycles, self-includes, diamonds) x each file with or without an #ifndef include guard, accepted iff no file is reached twice; non-trivial = split whose moved block is non-empty and whose program mentions a label; '
                 'states = distinct (program, cut) reference states',
         'bounds': {'alphabet': [R.render(u).strip().replace('\n', ' / ') for u in sigma(0)], 'length': '4 (all units)' if q else '4 (all units), 5 (9 core units)',
                    'cuts': 'all 0<=i<j<=L, nested all i<=k<l<=j (quick: nested only for L<=3)'},
         'assumptions': ['reference model: mc/refasm.py', 'a conditional chain is never split across files (units are whole chains)'],
         'floors': {'evaluations': 1000, 'nontrivial': 100, 'statuses': ['OK', 'REJECT'],
-                   'clauses': ['split-accepted', 'split-rejected', 'differential', 'placement-rejected', 'placement-accepted']},
+                   'clauses': ['split-accepted', 'split-rejected', 'differential', 'placement-rejected', 'placement-accepted', 'graph-accepted', 'graph-rejected']},
         'nshards': 64,
     }
 
@@ -119,6 +119,7 @@ def shard(acc, tier, idx, n):
                             acc.violation(cases, spec, m, [out, out_whole])
                         acc.judge(clause='differential')     # (same executions as the split judgement: not counted again as a distinct case)
     placements(acc, idx, n)
+    include_graphs(acc, idx, n)
 
 
 def judge_equal(spec, outs):
@@ -193,6 +194,42 @@ def placements(acc, idx, n):
         acc.state(('p', dirs, where, twice, selfinc, nested))
         if ctr % 37 == 0:
             acc.sample({'include_dirs': dirs, 'files': {k: R.render(v) for k, v in files.items()}, 'reference': spec})
+
+
+def include_graphs(acc, idx, n):
+    """Every include graph over {main, a, b}: main includes one or two files in order, a and b each include nothing or one of the three;
+    each file with or without a C-style include guard (#ifndef G / #define G / ... / #endif around its whole text).  A guard does not
+    make a second inclusion legal: the program is accepted iff no file is reached twice (a skipped #include does not count)."""
+    ctr = 0
+    names = {'main': 'main.asm', 'a': 'ga.asm', 'b': 'gb.asm'}
+    marks = {'main': 0x50, 'a': 0x60, 'b': 0x70}
+    for mains in (('a',), ('b',), ('a', 'b'), ('b', 'a'), ('a', 'a'), ('main',), ('a', 'main')):
+        for ea, eb in itertools.product((None, 'main', 'a', 'b'), repeat=2):
+            for guards in itertools.product((False, True), repeat=3):
+                ctr += 1
+                if ctr % n != idx:
+                    continue
+                files = {}
+                for (f, edges), g in zip((('main', mains), ('a', (ea,)), ('b', (eb,))), guards):
+                    body = [('data', 1, [marks[f]])] + [('include', names[e]) for e in edges if e is not None] + [('data', 1, [marks[f] + 1])]
+                    if g:
+                        body = [('ifndef', 'G_' + f.upper()), ('define', 'G_' + f.upper(), '1')] + body + [('endif',)]
+                    files[names[f]] = body
+                ref = R.assemble(PARAMS, files)
+                case = Case(ISA, R.render_files(files))
+                out = acc.run(case)
+                acc.transition()
+                if ref.status == 'DC':
+                    acc.dc(ref.reason)
+                    continue
+                spec = expect_spec(ref)
+                msg = judge_expect(spec, [out])
+                if msg:
+                    acc.violation([case], spec, f'include graph main->{mains} a->{ea} b->{eb} guards={guards}: {msg}', [out])
+                acc.judge(clause='graph-accepted' if ref.status == 'OK' else 'graph-rejected', nontrivial_key=('g', mains, ea, eb, guards))
+                acc.state(('g', mains, ea, eb, guards))
+                if ctr % 97 == 0:
+                    acc.sample({'files': {k: R.render(v) for k, v in files.items()}, 'reference': spec})
 
 
 def judge(spec, outcomes):
